@@ -245,7 +245,7 @@ End ToValue.
 
 (* ---------- the two stdlib functions ---------- *)
 
-Definition glue_fuel : nat := 102.
+Definition glue_fuel : nat := 101.
 
 Definition encode_proto (P : pool) (lossy : bool) (d : msgdesc) (v : value) : pres bytes :=
   pbind (conv_msg P lossy glue_fuel d v) (fun m => POk (encode_msg P d m)).
@@ -270,6 +270,8 @@ Definition canonical_key (kk : skind) (key : bytes) : bool :=
   | _ => false
   end.
 
+Definition is_neg_zero (x : value) : bool := match x with VFloat (S754_zero true) => true | _ => false end.
+
 Section Shape.
   Variable P : pool.
 
@@ -280,16 +282,25 @@ Section Shape.
     | (KInt32 | KSint32 | KSfixed32), VInt i => in_range (- 2 ^ 31) (2 ^ 31 - 1) i
     | (KInt64 | KSint64 | KSfixed64 | KUint64 | KFixed64), VInt i => in_range (- 2 ^ 63) (2 ^ 63 - 1) i
     | (KUint32 | KFixed32), VInt i => in_range 0 (2 ^ 32 - 1) i
-    | KDouble, VFloat f => negb (is_nan f) && sf_eqb (f64_of_bits (f64_to_bits f)) f
+    | KDouble, VFloat f =>
+        (* a binary64 value in its canonical representation *)
+        negb (is_nan f) && sf_eqb (f64_of_bits (f64_to_bits f)) f && in_range 0 (2 ^ 64 - 1) (f64_to_bits f)
     | KFloat, VFloat f =>
-        negb (is_nan f) && sf_eqb (f64_of_f32 (f32_of_bits (f32_to_bits (f32_of_f64 f)))) f   (* exactly an f32 *)
+        (* exactly a binary32 value: narrowing and widening again gives it back *)
+        let g := f32_of_f64 f in
+        negb (is_nan f) && negb (is_nan g) && sf_eqb (f64_of_f32 g) f
+        && sf_eqb (f32_of_bits (f32_to_bits g)) g && in_range 0 (2 ^ 32 - 1) (f32_to_bits g)
+        && Bool.eqb (is_zero_float g) (is_zero_float f)
     | KString, VBytes b => valid_utf8 b
     | KBytes, VBytes _ => true
     | KEnum vals, VBytes b =>
-        match enum_by_name vals b with
-        | Some z => match enum_by_number vals z with Some n => bytes_eqb n b | None => false end
-        | None => false
-        end
+        (* the exact name of a declared value (the one its number is printed as) *)
+        valid_utf8 b
+        && match enum_by_name vals b with
+           | Some z => in_range (- 2 ^ 31) (2 ^ 31 - 1) z
+                       && match enum_by_number vals z with Some n => bytes_eqb n b | None => false end
+           | None => false
+           end
     | KMsg i, VObj _ => shaped_msg (get_msg P i) x
     | _, _ => false
     end.
@@ -298,9 +309,11 @@ Section Shape.
     match f_card f, x with
     | CSingular _, _ => shaped_scalar shaped_msg (f_kind f) x
     | CRepeated _, VArr a => forallb (shaped_scalar shaped_msg (f_kind f)) a
-    | CMap kk _ _, VObj o =>
+    | CMap kk _ vpres, VObj o =>
+        (* canonical keys; a value field without presence cannot tell -0.0 from the absent 0.0 *)
         obj_sorted o
-        && forallb (fun kv : bytes * value => canonical_key kk (fst kv) && shaped_scalar shaped_msg (f_kind f) (snd kv)) o
+        && forallb (fun kv : bytes * value => canonical_key kk (fst kv) && shaped_scalar shaped_msg (f_kind f) (snd kv)
+                                               && (vpres || negb (is_neg_zero (snd kv)))) o
     | _, _ => false
     end.
 
@@ -336,31 +349,33 @@ Section Shape.
   Definition strip_scalar (strip_msg : msgdesc -> value -> value) (k : skind) (x : value) : value :=
     match k with KMsg i => strip_msg (get_msg P i) x | _ => x end.
 
+  (* what is left of one field's value: None = the field is dropped *)
+  Definition strip_field (strip_msg : msgdesc -> value -> value) (f : field) (x : value) : option value :=
+    match f_card f, x with
+    | CSingular true, _ => Some (strip_scalar strip_msg (f_kind f) x)
+    | CSingular false, _ =>
+        if is_default_value (f_kind f) x then None else Some (strip_scalar strip_msg (f_kind f) x)
+    | CRepeated _, VArr [] => None
+    | CRepeated _, VArr a => Some (VArr (map (strip_scalar strip_msg (f_kind f)) a))
+    | CMap _ _ _, VObj [] => None
+    | CMap _ _ _, VObj es =>
+        Some (VObj (map (fun e : bytes * value => (fst e, strip_scalar strip_msg (f_kind f) (snd e))) es))
+    | _, _ => Some x
+    end.
+
+  Definition strip_entry (strip_msg : msgdesc -> value -> value) (d : msgdesc) (kv : bytes * value) : list (bytes * value) :=
+    match find_by_name d (fst kv) with
+    | None => []
+    | Some f => match strip_field strip_msg f (snd kv) with Some y => [(fst kv, y)] | None => [] end
+    end.
+
   (* the same value without the fields that hold the default of a field without presence *)
   Fixpoint strip_msg (fuel : nat) (d : msgdesc) (v : value) : value :=
     match fuel with
     | O => v
     | S fu =>
         match v with
-        | VObj o =>
-            VObj (flat_map (fun kv : bytes * value =>
-                    match find_by_name d (fst kv) with
-                    | None => []
-                    | Some f =>
-                        match f_card f, snd kv with
-                        | CSingular true, x => [(fst kv, strip_scalar (strip_msg fu) (f_kind f) x)]
-                        | CSingular false, x =>
-                            if is_default_value (f_kind f) x then []
-                            else [(fst kv, strip_scalar (strip_msg fu) (f_kind f) x)]
-                        | CRepeated _, VArr [] => []
-                        | CRepeated _, VArr a => [(fst kv, VArr (map (strip_scalar (strip_msg fu) (f_kind f)) a))]
-                        | CMap _ _ _, VObj [] => []
-                        | CMap _ _ _, VObj es =>
-                            [(fst kv, VObj (map (fun e : bytes * value =>
-                                                   (fst e, strip_scalar (strip_msg fu) (f_kind f) (snd e))) es))]
-                        | _, x => [(fst kv, x)]
-                        end
-                    end) o)
+        | VObj o => VObj (flat_map (strip_entry (strip_msg fu) d) o)
         | _ => v
         end
     end.
